@@ -41,7 +41,7 @@ class Crash(Exception):
     pass
 
 
-CATCH = (UserError, OSError, RuntimeError, TypeError)
+CATCH = (UserError, OSError, RuntimeError, TypeError, ValueError)
 
 
 class MyTypeError(TypeError):
